@@ -45,6 +45,13 @@ const litRegexp3 = `(-)?[0-9]+`
 
 var litFiles = map[string]*text.File{}
 
+// the documented syntax of the numeric literals
+var litSyntax = map[string]*regexp.Regexp{
+	"integer":  regexp.MustCompile(`^(?:[-+]?(?:[1-9][0-9]*|0[xX][0-9a-fA-F]+|0[0-7]*))`),
+	"float":    regexp.MustCompile(`^(?:[-+]?[0-9]*\.[0-9]+(?:[eE][-+]?[0-9]+)?)`),
+	"duration": regexp.MustCompile(`^(?:[-+]?(?:[0-9]+(?:\.[0-9]+)?(?:ns|us|µs|μs|ms|s|m|h))+)`),
+}
+
 // litObserve runs one parser at one offset; cursors are 0-based (the file is alone in its set: pos = cursor + 1)
 func litObserve(p string, d []byte, off int) J {
 	o := J{"p": p, "d": intsOf(d), "off": off, "k": "err", "e": 0, "nf": false, "val": []int{}, "start": 0, "valueOK": true, "inrange": true, "rx": -1}
@@ -58,6 +65,22 @@ func litObserve(p string, d []byte, off int) J {
 		}
 		if m := regexp.MustCompile("^(?:" + expr + ")").FindIndex(d[off:]); m != nil && off < len(d) {
 			o["rx"] = m[1]
+		}
+	}
+	// the range decision of Go's conversion on the longest literal of the documented syntax at this offset, computed from
+	// the bytes alone (Go's regexp + strconv / time; nothing of parsley is involved)
+	if syn, ok := litSyntax[p]; ok && off <= len(d) {
+		if m := syn.Find(d[off:]); m != nil {
+			var cerr error
+			switch p {
+			case "integer":
+				_, cerr = strconv.ParseInt(string(m), 0, 64)
+			case "float":
+				_, cerr = strconv.ParseFloat(string(m), 64)
+			case "duration":
+				_, cerr = time.ParseDuration(string(m))
+			}
+			o["inrange"] = cerr == nil
 		}
 	}
 	if m := safely(func() {
@@ -81,17 +104,6 @@ func litObserve(p string, d []byte, off int) J {
 		}
 		if err != nil {
 			o["e"], o["nf"] = int(err.Pos())-1, parsley.IsNotFoundError(err)
-			// range decisions of Go's conversions on the literal the syntax matches
-			switch p {
-			case "integer":
-				if !parsley.IsNotFoundError(err) {
-					o["inrange"] = false
-				}
-			case "float", "duration":
-				if !parsley.IsNotFoundError(err) {
-					o["inrange"] = false
-				}
-			}
 			return
 		}
 		o["k"], o["start"], o["e"] = "node", int(node.Pos())-1, int(node.ReaderPos())-1
@@ -219,7 +231,7 @@ func literalsMain(mode string, a args) {
 		names := []string{"integer", "float", "string", "stringbq", "char", "bool", "nil", "word", "op", "rune", "duration", "regexp", "regexp2", "regexp3"}
 		near := map[string][]string{
 			"integer":  {"9223372036854775807", "9223372036854775808", "-9223372036854775808", "-9223372036854775809", "0x7fffffffffffffff", "0xffffffffffffffffff", "0777", "08", "0x", "12.", "+", "-0", "123456789012345678901234567890"},
-			"float":    {"1.5", "1.2e3456", "-1.2e-3456", ".5e", "1.e5", "..5", "1.2e+", "123456789.123456789e300", "0.0", "+.0e0"},
+			"float":    {"1.5e+", "2.25E-x", "1.5e", "1.5", "1.2e3456", "-1.2e-3456", ".5e", "1.e5", "..5", "1.2e+", "123456789.123456789e300", "0.0", "+.0e0"},
 			"string":   {`"abc"`, `"a\nb"`, `"\u00e9\U0001F355"`, `"\x41\101"`, `"\xe9"`, `"\351\200"`, `"\x80\xff"`, `"\q"`, `"\/"`, `"unterminated`, "\"raw\xff\xfe\"", "\"\xc3\"", `"\ud800"`, `"\777"`, "\"a\nb\"", "\"\\t\nq\"", `""`, `"`},
 			"stringbq": {"`raw\nline`", "``", "`open", `"x"`, "`a\\n`"},
 			"char":     {`'a'`, `'\n'`, `'\''`, `'\x41'`, `'\xe9'`, `'\u00e9'`, `'\U0001F355'`, `'\UFFFFFFFF'`, `'\ud800'`, `'\q'`, `'\0'`, `''`, `'ab'`, `'`, "'\xff'", "'\xc3\xa9'", "'\n'", `'\`},
@@ -227,13 +239,20 @@ func literalsMain(mode string, a args) {
 			"nil":      {"ab", "abc", "ab ", "a"},
 			"word":     {"ab", "ab1", "ab-", "a"},
 			"op":       {"aa", "aaa", "a"},
-			"rune":     {"é", "\xc3", "e", "éé"},
+			"rune":     {"é", "\xc3", "e", "éé", "\xe9", "\xe9\xa9"},
 			"duration": {"1h30m", "1.5s", "5ms", "5µs", "5μs", "1h30", "10", "-2h", "99999999999999h", "1.5", "1ms2", "3m.5s", "+1ns"},
 			"regexp":   {"abc12", "abc", "12", "a1b", "é1"},
 			"regexp2":  {"ab", "baaa", "c", "xxba", "xab", "a", "xc", "bba"},
 			"regexp3":  {"42", "-42", "-", "4-2", "--1", "0"},
 		}
 		junk := []byte("01789afx.eE+-\"'\\`nuU _\n\t\xc3\xa9\xffhms")
+		// every near-literal as it is, at offset 0 and behind a blank with a foreign byte after it
+		for _, p := range names {
+			for _, lit := range near[p] {
+				o.put(litObserve(p, []byte(lit), 0))
+				o.put(litObserve(p, []byte(" "+lit+"x"), 1))
+			}
+		}
 		for i := 0; i < n; i++ {
 			p := names[i%len(names)]
 			var d []byte
